@@ -30,7 +30,10 @@ func decodeFuzz(sel uint8, status uint16, hdr string, body []byte, trl string) (
 		return c, false
 	}
 	c.Header, c.Trailer = fz.ParseFields(hdr), fz.ParseFields(trl)
-	c.Body = clampLengths(body)
+	c.Body = body
+	if !(c.Protocol == "connect" && c.Kind == prog.Unary) {
+		c.Body = clampLengths(body)
+	}
 	return c, true
 }
 
